@@ -151,6 +151,19 @@ def check(ctx):
                 ctx.violation("adapter cannot be pickled: %s" % type(e).__name__, {"adapter": spec.to_json(), "why": "%s: %s" % (type(e).__name__, e)})
         kf = getattr(ad.kmer_finder, "kmer_finder", ad.kmer_finder)  # unwrap ShortReadKmerFinder
         has_finder = hasattr(kf, "positions_and_kmers")
+        if pickled is not None and has_finder:
+            # the pickled finder answers like the original one: probe with every k-mer of the table itself (wildcard characters
+            # of the adapter replaced by a concrete base), alone and inside a longer read
+            pkf = getattr(pickled.kmer_finder, "kmer_finder", pickled.kmer_finder)
+            probes = []
+            for kmer in [k_ for _st, _sp, ks_ in list(kf.positions_and_kmers)[:4] for k_ in list(ks_)[:3]]:
+                conc = "".join(c if c in "ACGT" else rng.choice("ACGT") for c in kmer.upper())
+                probes += [conc, "TT" + conc + "GG", conc.replace("A", "N", 1)]
+            for pr in probes:
+                if pr and kf.kmers_present(pr) != pkf.kmers_present(pr):
+                    ctx.violation("pickled k-mer finder answers differently: %s" % spec.typ,
+                                  {"adapter": spec.to_json(), "read": pr, "original": kf.kmers_present(pr), "after_pickle": pkf.kmers_present(pr), "pickled": True})
+                    break
         for r in reads:
             q = r[::-1] if spec.typ == "RightmostFront" else r
             real = ad.match_to(r)
